@@ -152,9 +152,18 @@ def failure_key(case, why):
     return f"C02/{h}refine"
 
 
-def gen_cases(rng, n, quick):
-    """n cases: chains of operations on fresh objects (the original stream) and histories on shared objects."""
+def gen_cases(rng, n, quick, extreme=False):
+    """n cases: chains of operations on fresh objects (the original stream) and histories on shared objects.
+    extreme (C12, whose quantifier is 'all thresholds and level counts'; C02 quantifies over thresholds in [0,1]):
+    a systematic block of extreme thresholds (+inf, -inf, +-1e308, -1, 0, 1, 2, 1 +- ulp, +-5e-324) x level counts
+    1, 2, 8, 16 x degenerate layouts, on fresh objects (with the callers' refine-while-needed loop) and on shared
+    objects flagged in place, and 30% of the other cases with some thresholds / level counts replaced by such values."""
     from harness.props import alloc_variants as av
+    ext = []
+    if extreme:
+        n_ext, n_exth = (len(ac.EXTREME) * 2, len(ac.EXTREME)) if quick else (len(ac.EXTREME) * 28, len(ac.EXTREME) * 8)
+        ext = [ac.gen_extreme_case(rng, i) for i in range(n_ext)] + [ac.gen_extreme_hist(rng, i) for i in range(n_exth)]
+        n = max(n - len(ext), 0)
     n_hist = (n * 9) // 20
     n_tmpl = min(n_hist // 3, 3 * len(ac.QKINDS) * len(ac.TKINDS))
     n_big = 8 if quick else 60
@@ -164,6 +173,10 @@ def gen_cases(rng, n, quick):
     cases += [av.vary(rng, av.gen_sliver2(rng)) for _ in range(n_sliver)]
     cases += [av.vary(rng, ac.gen_hist_case(rng)) for _ in range(n_hist - n_tmpl - n_big - n_sliver)]
     chains = [ac.gen_case(rng) for _ in range(n - n_hist)]
+    if extreme:
+        cases = [ac.extremize(rng, c) if rng.random() < 0.3 else c for c in cases]
+        chains = [ac.extremize(rng, c) if rng.random() < 0.3 else c for c in chains]
+        chains = ext + chains
     # interleave (chain cases print larger terms): the shards evaluated in parallel get similar loads
     out = []
     step = max(len(chains) / max(len(cases), 1), 0.0)
